@@ -1,7 +1,9 @@
 //go:build verif
 
 // C31 correspondence harness.  Runs the REAL in-package import functions
-//   (*ImportHandler).importCSV / importParquet -> ArrowBuffer.WriteTypedColumnarDirect -> FlushAll
+//
+//	(*ImportHandler).importCSV / importParquet -> ArrowBuffer.WriteTypedColumnarDirect -> FlushAll
+//
 // with a real ArrowBuffer on a temporary local backend, then reads the stored Parquet files
 // back.  Next to the observation it returns what the model needs as ORACLES, all computed here
 // independently of the code under test: the records encoding/csv produces for the upload (same
@@ -19,10 +21,14 @@ import (
 	"io"
 	"io/fs"
 	"math"
+	"mime/multipart"
+	"net/url"
 	"os"
 	"path/filepath"
 	"strconv"
 	"strings"
+	"sync"
+	"sync/atomic"
 	"testing"
 	"time"
 	"unicode/utf8"
@@ -37,7 +43,9 @@ import (
 	"github.com/basekick-labs/arc/internal/config"
 	"github.com/basekick-labs/arc/internal/ingest"
 	"github.com/basekick-labs/arc/internal/storage"
+	"github.com/gofiber/fiber/v2"
 	"github.com/rs/zerolog"
+	"github.com/valyala/fasthttp"
 )
 
 type verifImpCase struct {
@@ -48,6 +56,10 @@ type verifImpCase struct {
 	TimeFormat string `json:"time_format"`
 	Delimiter  string `json:"delimiter"`
 	SkipRows   int    `json:"skip_rows"`
+	// "" = importCSV / importParquet called in-package; "handler" = the real HTTP handler on a
+	// reused fasthttp.RequestCtx whose buffers are overwritten by a following request while the
+	// import's flush is still queued (value semantics of the strings the buffer keeps)
+	Via string `json:"via"`
 	// parquet: column descriptions from which the harness builds the file
 	PQ []verifPQCol `json:"pq"`
 }
@@ -87,11 +99,13 @@ type verifImpObs struct {
 	Records    [][]string               `json:"records"` // base64 cells
 	CsvErr     bool                     `json:"csv_err"`
 	DelimRunes int                      `json:"delim_runes"`
-	Table      map[string]verifImpAnnot `json:"table"` // by base64(cell text)
+	Table      map[string]verifImpAnnot `json:"table"`     // by base64(cell text)
 	FloatTab   map[string]*string       `json:"float_tab"` // parquet float time values: float64 bits -> micros (null: NaN/Inf)
 	Stored     []verifImpRow            `json:"stored"`
 	Files      int                      `json:"files"`
-	Panic      string                   `json:"panic,omitempty"`
+	// handler mode: rows found in the measurement of the FOLLOWING request beyond its own single row
+	Foreign int    `json:"foreign"`
+	Panic   string `json:"panic,omitempty"`
 }
 
 func verifB64(s string) string { return base64.StdEncoding.EncodeToString([]byte(s)) }
@@ -173,6 +187,8 @@ func verifImpClass(msg string) int {
 		return 3
 	case strings.HasPrefix(msg, "column name cannot be empty"):
 		return 4
+	case strings.HasPrefix(msg, "column name ") && strings.Contains(msg, "is not importable"):
+		return 14
 	case strings.HasPrefix(msg, "duplicate column name"):
 		return 5
 	case strings.HasPrefix(msg, "time column"):
@@ -406,6 +422,96 @@ func verifBuildParquet(t *testing.T, cols []verifPQCol) []byte {
 	return buf.Bytes()
 }
 
+// verifGateBackend is a real local backend whose writes can be held: while armed, every Write
+// waits for the gate, so flush tasks pile up in the ArrowBuffer's queue behind a busy worker.
+type verifGateBackend struct {
+	*storage.LocalBackend
+	mu       sync.Mutex
+	gate     chan struct{}
+	entered  chan struct{}
+	once     *sync.Once
+	inflight atomic.Int32
+}
+
+func (g *verifGateBackend) arm() {
+	g.mu.Lock()
+	g.gate, g.entered, g.once = make(chan struct{}), make(chan struct{}), &sync.Once{}
+	g.mu.Unlock()
+}
+
+func (g *verifGateBackend) open() {
+	g.mu.Lock()
+	if g.gate != nil {
+		close(g.gate)
+		g.gate = nil
+	}
+	g.mu.Unlock()
+}
+
+func (g *verifGateBackend) Write(ctx context.Context, path string, data []byte) error {
+	g.inflight.Add(1)
+	defer g.inflight.Add(-1)
+	g.mu.Lock()
+	gate, entered, once := g.gate, g.entered, g.once
+	g.mu.Unlock()
+	if gate != nil {
+		once.Do(func() { close(entered) })
+		<-gate
+	}
+	return g.LocalBackend.Write(ctx, path, data)
+}
+
+// verifServeImport serves one import on fctx the way the fasthttp server serves one request of a
+// keep-alive connection: the RequestCtx (and its URI / header / argument buffers) is reset and
+// reused, not reallocated.  Returns status and the "error" text of the JSON body.
+func verifServeImport(t *testing.T, app *fiber.App, h *ImportHandler, fctx *fasthttp.RequestCtx, kind, db, measurement string, c *verifImpCase, data []byte) (int, string, int64) {
+	var body bytes.Buffer
+	mw := multipart.NewWriter(&body)
+	fw, err := mw.CreateFormFile("file", "upload.dat")
+	if err != nil {
+		t.Fatal(err)
+	}
+	_, _ = fw.Write(data)
+	_ = mw.Close()
+	q := url.Values{}
+	q.Set("db", db)
+	q.Set("measurement", measurement)
+	if c != nil {
+		q.Set("time_column", c.TimeColumn)
+		q.Set("time_format", c.TimeFormat)
+		if kind == "csv" {
+			q.Set("delimiter", c.Delimiter)
+			q.Set("skip_rows", strconv.Itoa(c.SkipRows))
+		}
+	}
+	fctx.Request.Reset()
+	fctx.Response.Reset()
+	fctx.Request.Header.SetMethod(fiber.MethodPost)
+	fctx.Request.SetRequestURI("/api/v1/import/" + kind + "?" + q.Encode())
+	fctx.Request.Header.SetContentType(mw.FormDataContentType())
+	fctx.Request.SetBody(body.Bytes())
+	fc := app.AcquireCtx(fctx)
+	var herr error
+	if kind == "parquet" {
+		herr = h.handleParquetImport(fc)
+	} else {
+		herr = h.handleCSVImport(fc)
+	}
+	status := fc.Response().StatusCode()
+	var parsed struct {
+		Error  string `json:"error"`
+		Result struct {
+			Rows int64 `json:"rows_imported"`
+		} `json:"result"`
+	}
+	_ = json.Unmarshal(fc.Response().Body(), &parsed)
+	app.ReleaseCtx(fc)
+	if herr != nil {
+		t.Fatalf("import handler returned %v", herr)
+	}
+	return status, parsed.Error, parsed.Result.Rows
+}
+
 func TestVerifImport(t *testing.T) {
 	raw, err := os.ReadFile(os.Getenv("VERIF_CASES"))
 	if err != nil {
@@ -426,6 +532,41 @@ func TestVerifImport(t *testing.T) {
 	defer buf.Close()
 	h := NewImportHandler(logger)
 	h.SetArrowBuffer(buf)
+
+	// handler mode: every import is handed to the single flush worker (max_buffer_size = 1), which
+	// is held inside the gated backend while the connection serves the next request
+	root2 := t.TempDir()
+	local2, err := storage.NewLocalBackend(root2, logger)
+	if err != nil {
+		t.Fatal(err)
+	}
+	gated := &verifGateBackend{LocalBackend: local2}
+	buf2 := ingest.NewArrowBuffer(&config.IngestConfig{MaxBufferSize: 1, MaxBufferAgeMS: 36000000, Compression: "snappy",
+		FlushWorkers: 1, FlushQueueSize: 4096, ShardCount: 2}, gated, logger)
+	defer buf2.Close()
+	h2 := NewImportHandler(logger)
+	h2.SetArrowBuffer(buf2)
+	app2 := fiber.New(fiber.Config{DisableStartupMessage: true, BodyLimit: 64 << 20})
+	fctxBlock := &fasthttp.RequestCtx{}
+	fctxBlock.Init(&fasthttp.Request{}, nil, nil)
+	fctxConn := &fasthttp.RequestCtx{} // ONE keep-alive connection for all handler-mode cases
+	fctxConn.Init(&fasthttp.Request{}, nil, nil)
+	oneRow := []byte("time,v\n1700000000,1\n")
+	drain := func() {
+		deadline := time.Now().Add(30 * time.Second)
+		for time.Now().Before(deadline) {
+			st := buf2.GetStats()
+			if st["flush_queue_depth"].(int64) == 0 && gated.inflight.Load() == 0 {
+				time.Sleep(2 * time.Millisecond)
+				st = buf2.GetStats()
+				if st["flush_queue_depth"].(int64) == 0 && gated.inflight.Load() == 0 {
+					return
+				}
+			}
+			time.Sleep(time.Millisecond)
+		}
+		t.Fatalf("flush queue did not drain")
+	}
 
 	res := make([]verifImpObs, 0, len(cases))
 	for i, c := range cases {
@@ -503,6 +644,9 @@ func TestVerifImport(t *testing.T) {
 					obs.Panic = fmt.Sprint(r)
 				}
 			}()
+			if c.Via == "handler" {
+				return
+			}
 			if c.Kind == "parquet" {
 				result, ierr = h.importParquet(context.Background(), "vdb", measurement, data, importOptions{format: "parquet", timeColumn: c.TimeColumn, timeFormat: c.TimeFormat})
 			} else {
@@ -510,6 +654,53 @@ func TestVerifImport(t *testing.T) {
 					timeFormat: c.TimeFormat, delimiter: c.Delimiter, skipRows: c.SkipRows}, int64(len(data)))
 			}
 		}()
+		if c.Via == "handler" {
+			kind := "csv"
+			if c.Kind == "parquet" {
+				kind = "parquet"
+			}
+			own := fmt.Sprintf("hm%06d", i)   // same length as the follower's name
+			other := fmt.Sprintf("zq%06d", i) // a different measurement of the same length
+			// 1. keep the only flush worker busy
+			gated.arm()
+			if st, msg, _ := verifServeImport(t, app2, h2, fctxBlock, "csv", "vdb", "zzblock", nil, oneRow); st != 200 {
+				t.Fatalf("blocker import: %d %s", st, msg)
+			}
+			select {
+			case <-gated.entered:
+			case <-time.After(20 * time.Second):
+				t.Fatal("flush worker never reached the storage write")
+			}
+			// 2. the import under test: accepted or rejected by the real handler; its flush is queued
+			st, msg, rows := verifServeImport(t, app2, h2, fctxConn, kind, "vdb", own, &cases[i], data)
+			// 3. the SAME connection serves another import (other database / measurement of the same
+			//    lengths): it overwrites the request buffers the first import's strings came from
+			if st2, msg2, _ := verifServeImport(t, app2, h2, fctxConn, "csv", "wdb", other, nil, oneRow); st2 != 200 {
+				t.Fatalf("follower import: %d %s", st2, msg2)
+			}
+			// 4. release the worker and wait for the queue
+			gated.open()
+			drain()
+			_ = buf2.FlushAll(context.Background())
+			drain()
+			obs.Status = st
+			if st == 200 {
+				obs.Class, obs.RowsRep = 0, rows
+			} else {
+				obs.Msg, obs.Class = msg, verifImpClass(msg)
+			}
+			obs.Stored, obs.Files = verifReadStored(t, filepath.Join(root2, "vdb", own))
+			foreign, _ := verifReadStored(t, filepath.Join(root2, "wdb", other))
+			obs.Foreign = len(foreign) - 1
+			if extra, _ := verifReadStored(t, filepath.Join(root2, "vdb", other)); len(extra) > 0 {
+				obs.Foreign += len(extra)
+			}
+			if extra, _ := verifReadStored(t, filepath.Join(root2, "wdb", own)); len(extra) > 0 {
+				obs.Foreign += len(extra)
+			}
+			res = append(res, obs)
+			continue
+		}
 		switch {
 		case obs.Panic != "":
 			obs.Status, obs.Class = 500, 98
